@@ -20,9 +20,11 @@ const (
 	opPoolGet
 	opPoolPut
 	opUser
+	opWLock // sync.RWMutex.Lock: enabled when nobody writes and nobody reads
+	opRLock // sync.RWMutex.RLock: enabled when nobody writes
 )
 
-var opNames = [...]string{"start", "lock", "unlock", "load", "store", "get", "put", "user"}
+var opNames = [...]string{"start", "lock", "unlock", "load", "store", "get", "put", "user", "wlock", "rlock"}
 
 type thread struct {
 	id      int
@@ -38,7 +40,7 @@ type scheduler struct {
 	cur     int // index of the running thread, -1 when the controller runs
 	active  bool
 	// which op kinds are scheduling points
-	points [8]bool
+	points [10]bool
 	// Deadlock is set when no thread is enabled although some are not finished.
 	deadlock string
 	switches int
@@ -102,6 +104,8 @@ func schedInit(cfg SchedConfig, n int) {
 	sch.points[opStart] = true
 	sch.points[opLock] = cfg.Mutex
 	sch.points[opUnlock] = cfg.Mutex
+	sch.points[opWLock] = true // waiting must be visible to the scheduler whatever the point selection
+	sch.points[opRLock] = true
 	sch.points[opLoad] = cfg.Atomic
 	sch.points[opStore] = cfg.Atomic
 	sch.points[opPoolGet] = cfg.Pool && !cfg.PoolPutOnly
@@ -206,9 +210,16 @@ func enabledThread(t *thread) bool {
 	if t.done {
 		return false
 	}
-	if t.pendOp == opLock {
+	switch t.pendOp {
+	case opLock:
 		m := (*Mutex)(t.pendObj)
 		return !m.held
+	case opWLock:
+		m := (*RWMutex)(t.pendObj)
+		return !m.w.held && m.readers == 0
+	case opRLock:
+		m := (*RWMutex)(t.pendObj)
+		return !m.w.held
 	}
 	return true
 }
